@@ -581,6 +581,27 @@ func init() {
 						c.Fail("", msg, map[string]interface{}{"case": d(out), "detail": det})
 						return
 					}
+					if r.P(1, 4) {
+						// the same scene 2^k times as large or as small (an exact change of unit for every input number, far from
+						// overflow and underflow even for products of two lengths): the same result in the new unit, bit for bit
+						k := r.Range(1, 400)
+						if r.Bool() {
+							k = -k
+						}
+						f := math.Ldexp(1, k)
+						sring := make([]P, len(ring))
+						for i, v := range ring {
+							sring[i] = P{v[0] * f, v[1] * f}
+						}
+						sout, pv, _ := c16runRing([4]float64{box[0] * f, box[1] * f, box[2] * f, box[3] * f}, sring, o)
+						c.Eval()
+						c.Count("scenes_repeated_in_another_unit", 1)
+						want := refProject(refmodel.Copy(out), func(p orb.Point) orb.Point { return orb.Point{p[0] * f, p[1] * f} })
+						if pv != nil || !refmodel.EqualBits(sout, want) || (sout == nil) != (out == nil) {
+							c.Fail("", "the same scene in another unit (all numbers times a power of two) is clipped differently", map[string]interface{}{"case": d(out), "power_of_two": k, "output_in_the_other_unit": sv(sout), "panic": sv(pv)})
+							return
+						}
+					}
 					// generic entry agrees
 					g := smartclip.Geometry(boundOf(box[0], box[1], box[2], box[3]), pToRing(ring), o)
 					c.Eval()
@@ -652,6 +673,36 @@ func init() {
 					if r.P(1, 3) {
 						snapP = 1 // integer vertices (exact coincidences between rings); the box then sits on half-integers: no contact
 					}
+					lakeIsland := r.P(1, 6)
+					if lakeIsland {
+						// members that are not side by side: a polygon with a lake, and an island in that lake as another member
+						// (with its own holes). A box over the island's shore lies inside the first member's outer ring - that
+						// member is all around the box - while its lake's shore and the island's outer ring are cut.
+						np = 0
+						lake := gen.SimpleRing(r, r.Range(4, 10), 0, 0, 0.8*sc, 2*sc, snapP)
+						island := gen.PolygonWithHoles(r, r.Range(4, 8), 0, 0, 0.25*sc, 0.6*sc, snapP, r.Intn(3))
+						if lake == nil || island == nil || !gen.StrictlyInside(island[0], lake) {
+							return
+						}
+						gen.Reverse(lake)
+						e := 4 * sc
+						around := [][]P{{{-e, -e}, {e, -e}, {e, e}, {-e, e}, {-e, -e}}, lake}
+						in = [][][]P{around, island}
+						if r.Bool() {
+							in = [][][]P{island, around}
+						}
+						for _, rings := range in {
+							var pg orb.Polygon
+							for _, rg := range rings {
+								if o == orb.CW {
+									gen.Reverse(rg)
+								}
+								pg = append(pg, pToRing(rg))
+							}
+							mp = append(mp, pg)
+						}
+						c.Count("multipolygons_of_a_polygon_with_a_lake_and_an_island_in_it", 1)
+					}
 					for k := 0; k < np; k++ {
 						rings := gen.PolygonWithHoles(r, r.Range(4, 10), math.Round(float64(k)*5*sc+r.Uniform(-1, 1)*sc), math.Round(r.Uniform(-1, 1)*sc), 0.8*sc, 2*sc, snapP, r.Intn(4))
 						if rings == nil {
@@ -677,6 +728,13 @@ func init() {
 					// a box around a part of one polygon (or around a hole)
 					pk := in[r.Intn(len(in))]
 					rg := pk[r.Intn(len(pk))]
+					if lakeIsland && r.P(2, 3) {
+						for _, m := range in {
+							if len(m[0]) != 5 || math.Abs(m[0][0][0]) != 4*sc {
+								rg = m[0] // the island's shore
+							}
+						}
+					}
 					v := rg[r.Intn(len(rg))]
 					w, ht := r.Uniform(0.3, 4)*sc, r.Uniform(0.3, 4)*sc
 					box := [4]float64{v[0] - w*r.Float64(), v[1] - ht*r.Float64(), 0, 0}
